@@ -175,7 +175,10 @@ def run_hosts(ctx):
     cases, exprs, meta = [], [], []
     configs = [[d] for d in DOMAINS] + [[d] for d in BAD_DOMAINS] + [["s3.example.com", "example.org"], ["a.com", "ba.com"], ["a.com", "b.a.com"],
                ["b.a.com", "a.com"], ["a.com", "A.COM"], ["a.com", "a.com"], ["x.y", "z.w", "u.v", "s.t"], [], ["ok.com", "bad..com"],
-               ["a.com:80", "a.com"], ["s3.local:9000", "s3.local"]]
+               ["a.com:80", "a.com"], ["s3.local:9000", "s3.local"],
+               # overlap must be found whatever the letter case of either domain and whichever comes first
+               ["S3.Example.com", "eu.s3.example.com"], ["eu.s3.example.com", "S3.Example.com"], ["Example.COM", "example.com"], ["A.com", "b.a.COM"],
+               ["b.A.com", "a.com"], ["EU.s3.example.com", "S3.EXAMPLE.COM", "example.org"]]
     for bases in configs:
         multi = len(bases) != 1 or rng.chance(1, 3)
         for _ in range(6 if ctx.quick else 40):
@@ -223,11 +226,20 @@ def run_e2e(ctx):
     rng = ctx.rng
     cases, meta = [], []
     cfgs = [None, dict(single="s3.example.com"), dict(multi=["s3.example.com", "example.org"])]
-    for _ in range(60 if ctx.quick else 800):
+    # the length limit is 1024 BYTES of the UTF-8 key: keys of 1-, 2-, 3- and 4-byte characters on either side of it, in both styles
+    boundary = ["k" * 1024, "k" * 1025, "\u00e9" * 512, "\u00e9" * 513, "\u4e2d" * 341 + "a", "\u4e2d" * 342, "\U0001F600" * 256, "\U0001F600" * 256 + "x"]
+    # keys whose first segment is the bucket's own name (and look-alikes): the same key in both styles
+    own = ["{bk}/2024/a.jpg", "{bk}/", "{bk}", "{bk}//x", "{bk}/{bk}/y", "/{bk}/z", "{bk}2/y", "{bk}%2Fq"]
+    fixed = [(k_, st) for k_ in boundary + own for st in ("path", "vh")]
+    for it in range((60 if ctx.quick else 800) + len(fixed)):
         bk = rng.choice(["my-bucket", "a.b.c", "abc", "bucket-1"])
         key = gen_key(rng)
         cfg = rng.choice(cfgs)
         style = rng.choice(["path", "vh", "ip"])
+        if it < len(fixed):
+            key, style = fixed[it]
+            key = key.replace("{bk}", bk)
+            cfg = cfgs[1 + it % 2] if style == "vh" else cfg
         if style == "vh" and cfg is None:
             style = "path"
         if style == "vh":
